@@ -50,6 +50,7 @@ type VerifEvent struct {
 	Tokens    int        // D: len(tokens) at the time of the write (>0 inside encodeBlock)
 	OK        bool       // D: the destination accepted the write
 	New       []VerifTok // G: the tokens this call appended, decoded with token.ExtractLz77
+	Input     []byte     // G: copy of the buffer the match finder was given (input[0:End])
 }
 
 // VerifTok is one decoded LZ77 token: a literal (A, and a second literal B unless B == 256) or a match of
@@ -67,6 +68,7 @@ type verifRecLZ77 struct {
 func (r *verifRecLZ77) generate(flush bool, input []byte, processed int, offset int, tokens []token, maxToken int) (int, []token) {
 	n, t := r.inner.generate(flush, input, processed, offset, tokens, maxToken)
 	ev := VerifEvent{Kind: "G", Flush: flush, End: len(input), Processed: processed, Offset: offset, TokIn: len(tokens), NOffset: n, TokOut: len(t)}
+	ev.Input = append([]byte(nil), input...)
 	for i := len(tokens); i < len(t); i++ {
 		a, b, lit := t[i].ExtractLz77()
 		ev.New = append(ev.New, VerifTok{Lit: lit, A: a, B: b})
